@@ -450,6 +450,8 @@ def weigh(A, scheme, seed, symmetric):
         Wt = rs.randint(1, 4, size=(n, n)).astype(float)
     elif scheme == 'dyad':
         Wt = rs.randint(1, 9, size=(n, n)) / 8.0
+    elif scheme == 'const':     # every connection carries the same non-unit weight (a rescaled binary network)
+        Wt = np.full((n, n), [0.5, 0.125, 3.0][seed % 3])
     elif scheme == 'logu':      # lengths over 12 orders of magnitude (absolute tolerances are meaningless here)
         Wt = 10.0 ** rs.uniform(-12, 0, size=(n, n))
     elif scheme == 'decimal':   # k/10: equal real lengths whose float sums differ in the last bit (rounding-level ties)
